@@ -874,6 +874,31 @@ func (ex *Exec) specForm(st *State, name string, call *ast.CallExpr, sc *SpecCtx
 		}
 		ex.specErr("seen(k) used outside a map range loop invariant")
 		return one(ex.boolVal("false"))
+	case "mapset":
+		m := ex.eval(st, call.Args[0], sc)
+		k := ex.eval(st, call.Args[1], sc)
+		v := ex.eval(st, call.Args[2], sc)
+		if m.Sh != nil && m.Sh.Kind == "map" {
+			mt := m.T.Underlying().(*types.Map)
+			ex.bound++
+			r := ex.mapStore(m, ex.assignConvNoState(k, mt.Key()), ex.assignConvNoState(v, mt.Elem()))
+			ex.bound--
+			return one(r)
+		}
+		ex.specErr("mapset: not a modelled map")
+		return one(m)
+	case "mapdel":
+		m := ex.eval(st, call.Args[0], sc)
+		k := ex.eval(st, call.Args[1], sc)
+		if m.Sh != nil && m.Sh.Kind == "map" {
+			mt := m.T.Underlying().(*types.Map)
+			ex.bound++
+			r := ex.mapDelete(m, ex.assignConvNoState(k, mt.Key()))
+			ex.bound--
+			return one(r)
+		}
+		ex.specErr("mapdel: not a modelled map")
+		return one(m)
 	case "samedom":
 		a := ex.eval(st, call.Args[0], sc)
 		b := ex.eval(st, call.Args[1], sc)
